@@ -898,6 +898,37 @@ fn special_cases(thorough: bool) -> Vec<Value> {
     }
     v
 }
+/// ROOT block: path strings that name the workspace root itself (`` `.` `./` `././` `./.` `.//` ...) or a directory
+/// inside it (`d` `d/` `d/.` `./d//` ...) - accepted by every resolver (not absolute, no `..`), but a place where
+/// "the root" and "a path below the root" coincide: through every path-taking argument - the file tools (a write to a
+/// directory must fail without touching anything), ls / grep / bash cwd, the task cwd resolver, a REAL pipes task
+/// (`pwd -P` + a file created by the command must be in the root, whatever the process cwd), patch headers, checkpoint
+/// create, the auto checkpoint.  Every string with the process cwd equal to the root, next to it and above it.
+const ROOT_STRINGS: [&str; 9] = ["", ".", "./", "././", "./.", ".//", "./././/", ".//.", "./././."];
+const DIR_STRINGS: [&str; 8] = ["d", "d/", "d/.", "./d", "./d//", "d/./", "d/e/", ".//d/e/."];
+fn root_cases(seed: u64, thorough: bool) -> Vec<Value> {
+    let mut v = vec![];
+    let mut k = seed as usize;
+    for (i, raw) in ROOT_STRINGS.iter().chain(DIR_STRINGS.iter()).enumerate() {
+        let names_root = i < ROOT_STRINGS.len();
+        let cwds: Vec<u64> = if thorough { vec![0, 1, 2] } else { vec![(k % 3) as u64] };
+        for cwd in cwds {
+            for kind in ["read", "write", "write_plain", "write_append", "ls", "grep", "bash", "task", "patch_add", "tool_patch_add", "ck_create", "ck_runner", "auto_write"] {
+                v.push(json!({"kind": kind, "raw": raw, "cwd": cwd}));
+            }
+        }
+        // the real task: every root-naming string away from the root (and at the root in rotation); directories in rotation
+        let spawn_cwds: Vec<u64> = if thorough { vec![0, 1, 2] } else if names_root { vec![1 + (k % 2) as u64, if i % 3 == 0 { 0 } else { 2 - (k % 2) as u64 }] } else { vec![(k % 3) as u64] };
+        if names_root || thorough || i % 3 == 0 {
+            for cwd in spawn_cwds {
+                v.push(json!({"kind": "task_spawn", "raw": raw, "cwd": cwd, "pty": false}));
+            }
+        }
+        k += 1;
+    }
+    v
+}
+
 /// random triple of decorations around a random core
 fn gen_deco(r: &mut Rng, kind: &str) -> Value {
     let (_, _, core) = *r.pick(&CORES[..]);
@@ -1019,7 +1050,7 @@ fn main() {
     }
     let verif_root = a.extra.get("verif").cloned().unwrap_or_else(|| env!("CARGO_MANIFEST_DIR").to_string() + "/..");
     let mut res = RunResult::new("C13", &a);
-    res.rule = "cases = (path-taking argument, path string, process cwd): 19 argument kinds (read/write x3/ls/grep/bash cwd/task cwd/4 patch headers/apply_patch add+move/checkpoint create via Workspace and via ToolRunner + rewind/auto-checkpoint of write and apply_patch/rewind id) x strings from a grammar (plain, `..` in any position, absolute inside/outside/next to the root, '.', '', trailing and doubled slashes, unicode blanks, backslashes, 255/256/4096-byte components, long paths, NUL, random segment compositions) + SYSTEMATIC block: every prefix (./ .// ././/  // / /./ blanks, unicode blanks, BOM, backslash, %2F, %2e%2e%2f, NUL, ~/, file://, 3000-byte ./ runs), infix (// /./ backslash, mixed, %2F, fullwidth, division slash) and suffix (/ /. // /./ blanks, NUL, %00, backslash) decoration around every core (absolute outside / absolute inside / `..` climbing / plain relative; file and directory) through each of the six resolvers, + random decoration triples; x cwd in {root, sibling, parent}; the oracle judges by effect: nothing outside the root changes, no outside bytes in outputs, and a reported success has its effect exactly at <root>/<segments>; non-trivial = the string has at least one non-trivial segment".into();
+    res.rule = "cases = (path-taking argument, path string, process cwd): 19 argument kinds (read/write x3/ls/grep/bash cwd/task cwd/4 patch headers/apply_patch add+move/checkpoint create via Workspace and via ToolRunner + rewind/auto-checkpoint of write and apply_patch/rewind id) x strings from a grammar (plain, `..` in any position, absolute inside/outside/next to the root, '.', '', trailing and doubled slashes, unicode blanks, backslashes, 255/256/4096-byte components, long paths, NUL, random segment compositions) + SYSTEMATIC block: every prefix (./ .// ././/  // / /./ blanks, unicode blanks, BOM, backslash, %2F, %2e%2e%2f, NUL, ~/, file://, 3000-byte ./ runs), infix (// /./ backslash, mixed, %2F, fullwidth, division slash) and suffix (/ /. // /./ blanks, NUL, %00, backslash) decoration around every core (absolute outside / absolute inside / `..` climbing / plain relative; file and directory) through each of the six resolvers, + random decoration triples; + ROOT block: every string naming the root itself (`` . ./ ././ ./. .// ...) or a directory (d d/ d/. ./d// ...) through every path-taking argument incl. a REAL pipes task (pwd -P and a file the command creates must lie in the root); x cwd in {root, sibling, parent}; the oracle judges by effect: nothing outside the root changes, no outside bytes in outputs, and a reported success has its effect exactly at <root>/<segments>; non-trivial = the string has at least one non-trivial segment".into();
     let n = if a.thorough() { 30000 } else { 900 };
     let mut r = Rng::new(a.seed);
     let mut jobs: Vec<Value> = if let Some(rp) = &a.replay {
@@ -1030,6 +1061,7 @@ fn main() {
     };
     if a.replay.is_none() {
         jobs.extend(special_cases(a.thorough()));
+        jobs.extend(root_cases(a.seed, a.thorough()));
         jobs.extend(if a.thorough() { systematic(a.seed, CORES.len(), true) } else { systematic(a.seed, 8, false) });
         for _ in 0..n {
             jobs.push(gen_case(&mut r));
